@@ -100,6 +100,9 @@ def make_config(c):
                             bg_color=None if c["bg"] == "none" else LD.parse_color(c["bg"]))
 
 
+_FILTERS = {}
+
+
 def run_case(adoc, c, kind):
   """Build, snapshot, filter, project, snapshot, filter again, project.  Returns None when the *input* is unusable."""
   from ttconv.filters.doc.lcd import LCDDocFilter
@@ -115,7 +118,14 @@ def run_case(adoc, c, kind):
   doc = LD.build(adoc)
   rec = {"kind": kind, "cfg": c, "before": before, "raised": "", "after": before, "raised2": "", "after2": before,
          "obs_raised": "", "ticks": ticks, "visb": visb, "obsa": [[] for _ in visb]}
-  flt = LCDDocFilter(make_config(c))
+  # one filter object per configuration and worker process, used for one document after the other (as a service that
+  # converts many files does): what it did to an earlier document must not show in a later one
+  key = json.dumps(c, sort_keys=True)
+  flt = _FILTERS.get(key) if kind == "random" else None
+  if flt is None:
+    flt = LCDDocFilter(make_config(c))
+    if kind == "random":
+      _FILTERS[key] = flt
   try:
     flt.process(doc)
   except Exception as ex:  # pylint: disable=broad-except
@@ -276,11 +286,12 @@ def run(ctx):
 
   # code -> spec: seeded random richer documents
   nrand = 4000 if deep else 500
+  # (a dozen configurations per run, so that each filter object - see run_case - meets dozens of documents)
+  cfg_pool = [{"sa": ctx.rng.choice([0, 5, 10, 17, 30]), "pta": ctx.rng.random() < 0.5,
+               "color": ctx.rng.choice(RANDOM_CFG_COLORS), "bg": ctx.rng.choice(RANDOM_CFG_COLORS)} for _ in range(12 if not deep else 40)]
   for _ in range(nrand):
     adoc = LD.random_doc(ctx.rng)
-    c = {"sa": ctx.rng.choice([0, 5, 10, 17, 30]), "pta": ctx.rng.random() < 0.5,
-         "color": ctx.rng.choice(RANDOM_CFG_COLORS), "bg": ctx.rng.choice(RANDOM_CFG_COLORS)}
-    tasks.append((adoc, c, "random"))
+    tasks.append((adoc, dict(ctx.rng.choice(cfg_pool)), "random"))
 
   # feature-length documents: more than a thousand paragraphs in one division, under every kind of configuration
   for k in range(4 if deep else 2):
